@@ -214,6 +214,20 @@ func (g *c17Engine) run(tp *toolPlan) (*toolVerdict, map[string]int, error) {
 		case "", "absent":
 		case "readonly":
 			os.WriteFile(tgt, []byte("package wordlist\n"), 0444)
+		case "symlink-rel", "symlink-abs", "symlink-dangling":
+			// the target is a symbolic link into a sibling directory (a longer stale file there, or nothing yet):
+			// the shipped tool writes through it; whatever a rewrite does, the path must afterwards hold the list
+			gen := filepath.Join(work, "internal", "generated")
+			os.MkdirAll(gen, 0755)
+			real := filepath.Join(gen, name+".go")
+			if kind != "symlink-dangling" {
+				os.WriteFile(real, prestateContent("longer"), 0644)
+			}
+			link := "../generated/" + name + ".go"
+			if kind == "symlink-abs" {
+				link = real
+			}
+			os.Symlink(link, tgt)
 		default:
 			os.WriteFile(tgt, prestateContent(kind), 0644)
 		}
@@ -545,6 +559,9 @@ func genToolPlan(seed uint64, i int) *toolPlan {
 			tp.Inputs[name] = genInput(r, l == hugeLang)
 		}
 		tp.Prestate[name] = []string{"absent", "longer", "shorter", "junk", "longer"}[r.Intn(5)]
+		if r.Intn(12) == 0 {
+			tp.Prestate[name] = []string{"symlink-rel", "symlink-abs", "symlink-dangling"}[r.Intn(3)]
+		}
 	}
 	if i%40 == 7 { // fault runs: counted, no verdict
 		switch r.Intn(3) {
@@ -648,7 +665,7 @@ func CheckC17(e *Env) (int, error) {
 		// non-trivial: >= 1 target with a pre-existing file of different length and >= 1 non-ASCII word
 		pre, nonASCII := false, false
 		for name, in := range tp.Inputs {
-			if k := tp.Prestate[name]; k == "longer" || k == "shorter" || k == "junk" {
+			if k := tp.Prestate[name]; k == "longer" || k == "shorter" || k == "junk" || strings.HasPrefix(k, "symlink") {
 				pre = true
 			}
 			for _, w := range in.Lines {
@@ -701,7 +718,7 @@ func CheckC17(e *Env) (int, error) {
 	cov := map[string]interface{}{
 		"evaluations":                runs,
 		"distinct_nontrivial":        len(distinct),
-		"rule":                       "a case = one run of the real update-wordlist binary (built with -tags verif, its map range rewritten to a seed-chosen order) against a simulated upstream (in-process file transport, ten generated files of letters and combining marks in 20 alphabets (scripts and letter/mark categories), 0-5000 lines and occasionally 70k-260k lines (> 1 MiB), blank lines, duplicates, with/without trailing newline; in half of the runs the response bodies arrive in seeded short reads, the last bytes possibly together with io.EOF; every 25th run the frozen canonical lists) and a seeded disk pre-state per target (absent, much longer stale file, shorter file, junk), in a third of the runs also leftovers of a killed earlier run under the temporary names such tools use (<lang>.go.tmp, .new, .partial, ...). Each output is parsed and type-checked and compared entry by entry with the non-empty input lines. Non-trivial: >= 1 target had a pre-existing file and >= 1 word is non-ASCII; distinct by digest of (inputs, pre-state, order).",
+		"rule":                       "a case = one run of the real update-wordlist binary (built with -tags verif, its map range rewritten to a seed-chosen order) against a simulated upstream (in-process file transport, ten generated files of letters and combining marks in 20 alphabets (scripts and letter/mark categories), 0-5000 lines and occasionally 70k-260k lines (> 1 MiB), blank lines, duplicates, with/without trailing newline; in half of the runs the response bodies arrive in seeded short reads, the last bytes possibly together with io.EOF; every 25th run the frozen canonical lists) and a seeded disk pre-state per target (absent, much longer stale file, shorter file, junk; one target in twelve is a relative, absolute or dangling symbolic link into a sibling directory), in a third of the runs also leftovers of a killed earlier run under the temporary names such tools use (<lang>.go.tmp, .new, .partial, ...). Each output is parsed and type-checked and compared entry by entry with the non-empty input lines. Non-trivial: >= 1 target had a pre-existing file and >= 1 word is non-ASCII; distinct by digest of (inputs, pre-state, order).",
 		"exhaustive":                 false,
 		"samples":                    samples,
 		"runs":                       runs,
@@ -710,7 +727,7 @@ func CheckC17(e *Env) (int, error) {
 		"lists_verified":             tot["lists_verified"],
 		"words_verified":             tot["words_verified"],
 		"canonical_lists_reproduced": tot["canonical_lists_reproduced"],
-		"faults_fired":               map[string]int{"prestate_longer": tot["prestate_longer"], "prestate_shorter": tot["prestate_shorter"], "prestate_junk": tot["prestate_junk"], "prestate_absent": tot["prestate_absent"], "fault_runs_no_verdict": tot["fault_runs_no_verdict"], "fault_runs_tool_failed": tot["fault_runs_tool_failed"]},
+		"faults_fired":               map[string]int{"prestate_longer": tot["prestate_longer"], "prestate_shorter": tot["prestate_shorter"], "prestate_junk": tot["prestate_junk"], "prestate_absent": tot["prestate_absent"], "prestate_symlink_relative": tot["prestate_symlink-rel"], "prestate_symlink_absolute": tot["prestate_symlink-abs"], "prestate_symlink_dangling": tot["prestate_symlink-dangling"], "fault_runs_no_verdict": tot["fault_runs_no_verdict"], "fault_runs_tool_failed": tot["fault_runs_tool_failed"]},
 		"probes":                     map[string]int{"truncation_needed_and_happened": tot["truncation_needed_and_happened"], "distinct_fetch_orders": len(firstLang), "runs_with_fragmented_bodies": tot["runs_with_fragmented_bodies"], "stray_leftover_files_of_a_killed_run": tot["stray_leftover_files"], "runs_with_a_file_over_64Ki_lines": scripts["runs_with_a_file_over_64Ki_lines"], "canonical_runs": scripts["canonical"]},
 		"map_ranges_rewritten":       rep.MapRanges,
 		"uncontrolled_ranges":        rep.OtherRanges,
